@@ -17,6 +17,7 @@ const (
 	keyIdx  cesium.ChannelKey = 1
 	keyData cesium.ChannelKey = 2
 	keyU8   cesium.ChannelKey = 3
+	keyStr  cesium.ChannelKey = 4
 )
 
 func openCesium(fs xfs.FS, fileCap telem.Size) (*cesium.DB, error) {
